@@ -283,6 +283,8 @@ def scenario_streams(ctx, res, rng, idx, with_callbacks=False, preempt=0):
                     for _ in range(p["setcb_after"]):
                         try:
                             out.append(("item", ch.receive(timeout=2.0)))
+                        except EOFError:
+                            break  # the conversation already ended: setcallback must then deliver the endmarker at once
                         except Exception as e:  # noqa: BLE001
                             out.append(("pre-exc", type(e).__name__))
                             break
@@ -562,7 +564,12 @@ def scenario_callback_error(ctx, res, rng, idx):
             if not result.get("closed"):
                 problems.append("failing side's channel not closed")
         peer = [e for e in sc.ctl.log.get(1, []) if e[0] == "exc"]
-        if peer != [("exc", "RemoteError", True)]:
+        if dropped:
+            # the initiator's channel object is gone (CHANNEL_LAST_MESSAGE): the peer's receive may already have ended with
+            # EOF before the failure travels; the error is then only reported (warned) — but never more than once
+            if peer not in ([], [("exc", "RemoteError", True)]):
+                problems.append(f"peer of the failing callback observed {peer}")
+        elif peer != [("exc", "RemoteError", True)]:
             problems.append(f"peer of the failing callback observed {peer}, expected exactly one RemoteError naming the exception")
         if result.get("sib") != ("sib", 0, b""):
             problems.append("sibling conversation disturbed")
@@ -688,9 +695,16 @@ def scenario_cut(ctx, res, rng, idx):
 
     def main(sc, gw, ctl):
         chans = []
-        for k in range(nconv):
-            ctl.scripts[2 * k + 1] = [("send", ("c%d" % k, i, b"")) for i in range(nitems[k])]
-            chans.append(gw.remote_exec(netthreads.BODY2))
+        try:
+            for k in range(nconv):
+                ctl.scripts[2 * k + 1] = [("send", ("c%d" % k, i, b"")) for i in range(nitems[k])]
+                chans.append(gw.remote_exec(netthreads.BODY2))
+        except OSError:
+            # the connection was already gone when the conversation was to be started: refusing is the specified behaviour
+            after.update(hasreceiver=gw.hasreceiver(), newchannel="OSError", remote_exec="OSError", send="OSError", early=True)
+            sc.sc.block_until(lambda: not gw.hasreceiver(), 60.0, "receiver-end")
+            after["hasreceiver"] = gw.hasreceiver()
+            return
         threads = []
         for k, ch in enumerate(chans):
             if modes[k] in ("recv", "recv2"):
